@@ -35,6 +35,9 @@ CHECKS = {
  "C10": ("fault_enumeration", "systematic enumeration of client cut points (every send/read step of a Modify script x half-close/cancel/transport kill, Get cut after k responses) with a prefix-closed state oracle and a bounded-progress liveness probe under watchdog + quiescent goroutine-dump classifier, in child processes",
          "Every step of a scripted Modify session and every cut position of a streamed Get is used as a disconnect point, over direct streams and real gRPC (half-close, cancellation, killed transport), alone and in sequences. After each fault the contents and the highest election id must equal the state after some prefix of the unacknowledged operations, and a new session must negotiate, win the election, program an entry, read it back and flush - every step under a watchdog whose firing counts as a violation only if two goroutine dumps prove the server permanently blocked.",
          "trusted: model.Predict for operations whose answers were not read; quiescence detection by goroutine dumps (one workload per child process)", "4 C10"),
+ "C11": ("exploration", "Go race detector (-race) over concurrent Modify/Get/Flush workloads with yield-point injection, in child processes; watchdog + quiescent goroutine-dump classifier for deadlock; porcupine linearizability of per-key registers and of the election max-register over the recorded history; quiescent invariants (hooked refcounts, election probe)",
+         "2-16 sessions on their own transports negotiate, announce, modify, drop and reconnect while Get readers and Flush callers run against the same server, with scheduling perturbed at the repository's yield points. A race report with a repository frame, a proven permanent block, a process exit, a non-linearizable key or election history, or an inconsistent quiescent state is a violation. Held on the executions produced: a clean run is not absence of races.",
+         "trusted: Go race detector, porcupine v1.3.0; single writer per key by construction; contents under an overlapping Flush are not judged beyond register semantics (the property exempts them)", "4 C11"),
  "C12": ("exploration", "hostile-input workload (structured protobuf mutation + named invalid classes) in sacrificial child processes with a state-unchanged oracle (contents, hooked pending set and refcounts), crash detection by process exit and hang detection by watchdog + quiescent goroutine-dump classifier",
          "Child processes each send hundreds of mutated or deliberately invalid AFT operations (through the RIB API and through a Modify stream) and Get/Flush request variants to a populated server that also carries a bystander session; each input is logged before it is sent so that a crash names its input. Invalid classes must be FAILED (or a clean RPC error) with contents, held operations and reference counters unchanged; inputs of unknown validity must not crash or hang and must leave state unchanged when rejected.",
          "trusted: the class tags of the generator; only wire-representable inputs are sent; the process boundary is the crash detector", "4 C12"),
